@@ -977,7 +977,10 @@ def _check_pes(args, cls="PES"):
         return None, {}      # the optional header is only recognisable in a PES packet that fills the TS packet
     hdr = hdr_expected(p)
     want = (p.streamid, p.extension_w1, p.extension_w2, None if p.header_data is None else bytes(p.header_data))
-    b = p.pack()
+    try:
+        b = p.pack()
+    except Exception as e:
+        return "%s.pack raises %r on a well-formed packet (%s optional header)" % (cls, e, "with" if has_hdr else "without"), {"check": "layout"}
     exp = hdr + afb + exp_payload + b"\xff" * (188 - used)
     if b != exp:
         return "%s.pack emits %s, the ISO 13818-1 layout is %s" % (cls, hexb(b), hexb(exp)), {"check": "layout"}
